@@ -36,35 +36,72 @@ Theorem C12_lex_token_text : forall src k t, In (k, t) (lex_off src) -> ttype_of
   exists n, recognize (ttype_of t) (skipn k src) = Some n /\ tval t = rename (firstn n (skipn k src)).
 Proof. exact lex_token_text. Qed.
 
-(* parse_total, full strength for the faithful model: for every source, oracle and collator
-   the outcome is a value, a diagnostic naming a token of the stream, or the panic of the Set
-   constructor's collator — and then the collator did panic on some pair of parsed values.
-   Never out of fuel, never a push-back overflow, never starved behind EOF, no runtime error. *)
+(* parse_total, full strength, for every source, oracle and collator: the outcome is a value or a
+   diagnostic naming a token of the stream.  Never out of fuel, never a push-back overflow, never
+   starved behind EOF, no runtime error — since fix 37 also when the Set constructor's collator
+   panics (members nested deeper than its traversal limit): the diagnostic names the type token. *)
 Theorem C12_parse_total : forall fparse crank src,
   match parse_source fparse crank src with
   | PValue _ => True
   | PSyntax t => In t (lex src)
-  | PRuntime RCollator => exists a b, crank a b = None
   | _ => False
   end.
 Proof. exact parse_total. Qed.
 
-(* the statement of the task: value or syntax diagnostic — under a collator that cannot panic *)
+(* the statement of the task: value or syntax diagnostic — for EVERY input, oracle and collator *)
 Theorem C12_parse_total_strict : forall fparse crank src,
-  (forall a b, crank a b <> None) ->
   is_value (parse_source fparse crank src) = true \/ is_syntax (parse_source fparse crank src) = true.
 Proof. exact parse_total_strict. Qed.
 
-(* without that hypothesis the statement is false of the faithful model (known finding): two
-   members of a Set that are nested 17 deep make the default collator panic with its
-   depth-limit message, which is not a syntax diagnostic *)
+(* before fix 37 (known finding C12-set-depth-limit, now repaired): two members of a Set that are
+   nested 17 deep make the default collator panic inside the Set constructor (set_build = None);
+   the pinned tree let that panic — not a syntax diagnostic — out of ParseSource (replay
+   findings/pre-fix/D37-set-depth-limit.json).  Now the outcome is the diagnostic for the type
+   token "Set", line 1, position 280. *)
 Fixpoint nest (k : nat) (inner : list Z) : list Z :=
   match k with O => inner | S k' => zs "[" ++ nest k' inner ++ zs "](List)" end.
 Definition deep_set_source : list Z :=
   zs "[" ++ nest 17 (zs "1") ++ zs ", " ++ nest 17 (zs "1") ++ zs "](Set)".
-Theorem C12_parse_total_value_or_syntax_refuted :
-  exists src, parse_source (fun _ => None) (default_crank []) src = PRuntime RCollator.
-Proof. exists deep_set_source. vm_compute. reflexivity. Qed.
+Theorem C12_parse_total_value_or_syntax_refuted_before_fix :
+  exists src items,
+    parse_source (fun _ => None) (default_crank []) (zs "[" ++ src ++ zs "](List)") = PValue (VSeq KList items) /\
+    set_build (default_crank []) [] items = None /\
+    parse_source (fun _ => None) (default_crank []) (zs "[" ++ src ++ zs "](Set)") = PSyntax (mkTok TType (zs "Set") 1 280).
+Proof.
+  exists (nest 17 (zs "1") ++ zs ", " ++ nest 17 (zs "1")). eexists. split; [vm_compute; reflexivity|].
+  split; vm_compute; reflexivity.
+Qed.
+
+(* WHICH token does a diagnostic name?  The statement "the token named is the first token that cannot
+   continue a sentence of the grammar" is FALSE of the model and of the real code (replay
+   findings/C12-diagnostic-token.go.txt): in a list of associations, after "," (or after a newline in the
+   multi-line form) a literal that is not followed by ":" is blamed ITSELF — parseAssociation puts the key
+   back and hands the key token on — although the tokens up to and including it are a prefix of an
+   accepted text; the first token that cannot continue is the one BEHIND it.  The diagnostic is at the
+   start of the association that could not be completed: never later than the first offending token
+   plus its key, but one token earlier than asked.  What IS proved: a token on which the parser stops at
+   first sight — an Error token (C10_accepted_source_has_no_error_token, ErrorTokens.v), a literal
+   without an exact value at any position of a derivation tree (C11_inexact_literal_rejected_anywhere,
+   ParserPrefix.v) — is blamed itself, and the tokens in front of it are never blamed. *)
+Theorem C12_diagnostic_is_the_first_offending_token_refuted :
+  exists src src' pre t post post' v,
+    lex src = pre ++ t :: post /\ parse_source (fun _ => None) (default_crank []) src = PSyntax t /\
+    lex src' = pre ++ t :: post' /\ parse_source (fun _ => None) (default_crank []) src' = PValue v.
+Proof.
+  exists (zs "[1: 2, 3](Catalog)"), (zs "[1: 2, 3: 4](Catalog)").
+  eexists [_; _; _; _; _], _, _, _, _. split; [vm_compute; reflexivity|].
+  split; [vm_compute; reflexivity|]. split; vm_compute; reflexivity.
+Qed.
+Example C12_ex_diagnostic_tokens :
+  parse_source (fun _ => None) (default_crank []) (zs "[1: 2, 3](Catalog)") = PSyntax (mkTok TInteger (zs "3") 1 8) /\
+  parse_source (fun _ => None) (default_crank []) (zs "[
+1: 2
+3
+](Catalog)") = PSyntax (mkTok TInteger (zs "3") 3 1) /\
+  parse_source (fun _ => None) (default_crank []) (zs "[1: 2, 3 $](Catalog)") = PSyntax (mkTok TError (zs "$") 1 10) /\
+  parse_source (fun _ => None) (default_crank []) (zs "[1: 2, 99999999999999999999: 4](Catalog)")
+  = PSyntax (mkTok TInteger (zs "99999999999999999999") 1 8).
+Proof. vm_compute. repeat split; reflexivity. Qed.
 
 (* pushback_bound: the push-back stack never exceeds its capacity, for every token list *)
 Theorem C12_pushback_bound : forall fparse crank ts, parse_tokens fparse crank ts <> PRuntime RPushOverflow.
@@ -160,14 +197,14 @@ Proof. exact scanner_finishes_before_fix_iff. Qed.
 (* ... which fails for the text of findings/pre-fix/D18-scanner-goroutine-left.json *)
 Theorem C12_scanner_always_finishes_refuted_before_fix :
   exists src : list Z, forall (fparse : list Z -> option Z) (crank : val -> val -> option comparison),
-  ~ scanner_finishes (length (lex src)) (consumed_before_fix fparse crank src) queue_size.
+  ~ scanner_finishes (length (lex src)) (consumed_before_fix fparse crank src) 16.
 Proof. exact scanner_finishes_refuted_before_fix. Qed.
 
 Example C12_ex_d18 :
   d18_source = zs "[1 2, 3, 4, 5, 6, 7, 8, 9, 10, 11, 12, 13, 14, 15, 16, 17](List)" /\
   length (lex d18_source) = 38 /\ consumed_before_fix (fun _ => None) (default_crank []) d18_source = 3 /\
   parse_source (fun _ => None) (default_crank []) d18_source = PSyntax (mkTok TInteger [50%Z] 1 4) /\
-  consumed_with_drain (fun _ => None) (default_crank []) d18_source = Some 38 /\ queue_size = 16.
+  consumed_with_drain (fun _ => None) (default_crank []) d18_source = Some 38 /\ (1 <=? queue_size) = true.
 Proof. repeat split; vm_compute; reflexivity. Qed.
 
 (* what the parser itself consumes: everything for a value (EOF read: done_), the Error token for an illegal
@@ -190,7 +227,8 @@ Print Assumptions C12_lex_positions.
 Print Assumptions C12_lex_token_text.
 Print Assumptions C12_parse_total.
 Print Assumptions C12_parse_total_strict.
-Print Assumptions C12_parse_total_value_or_syntax_refuted.
+Print Assumptions C12_parse_total_value_or_syntax_refuted_before_fix.
+Print Assumptions C12_diagnostic_is_the_first_offending_token_refuted.
 Print Assumptions C12_pushback_bound.
 Print Assumptions C12_never_out_of_fuel.
 Print Assumptions C12_never_reads_behind_eof.
